@@ -1,9 +1,9 @@
 CONSTANTS
   Dev = {"D_opt_rcode_sticks"}
-  Scenario = "reply"
+  Scenario = "optrc"
   MaxOps = 4
-  CompSet = {"none", "static", "tree", "hash"}
-  TgtSet = {"array", "sarray", "stream"}
+  CompSet = {"none", "tree"}
+  TgtSet = {"array", "sarray"}
 SPECIFICATION Spec
 INVARIANT Emit
 CHECK_DEADLOCK FALSE
